@@ -271,7 +271,7 @@ type replayFile struct {
 	ClassKey    string                 `json:"class_key"`
 	Message     string                 `json:"message"`
 	Seed        int64                  `json:"verif_seed"`
-	Spec        map[string]interface{} `json:"spec"`
+	Spec        json.RawMessage        `json:"spec"` // kept verbatim: 64-bit parameters must not pass through float64
 	OrigTapeLen int                    `json:"orig_tape_len"`
 	OrigNonzero int                    `json:"orig_tape_nonzero"`
 	MinNonzero  int                    `json:"min_tape_nonzero"`
